@@ -193,21 +193,21 @@ CLAIMS = {
 
 # clauses added after the level texts above were written (DESIGN.md 9.3 describes each); appended to the claimed level
 ADDENDA = {
- 'C01': "Added later (DESIGN.md 9.3): the first error a sub-parser reports is kept - no store to the error field is reachable once it is known non-zero (E1.first-error; found and fixed 47c8fbb), and every store that can clear the field, and every call that contains one, happens where the field is known zero (interprocedural Must analysis E1.error-sticky), so a fault reported only through the field cannot be wiped by a later number; the control-byte screen, block predicates and mask classes of the string scanner (shared with C05), the SIMD mask width/composition (C15) and the cached white-space bitmap shift range (C11) are re-checked here on K1 and K3. The fault-class naming is thus decided for nested values; which class a truncated text gets is not. Round 11: SetUp's node-stack capacity evaluated for text lengths 0..400 and large ones: >= (len+1)/2, the most live nodes a valid text can have (E5.setup-bound, shared with C02).",
- 'C02': "Added later: every pushed node-stack slot is typed before any exit that lets TearDown see it (E2.slot-init); Parser/SkipScanner objects are fresh locals serving one buffer (E7.fresh-parser); a pool chunk created for a request covers it (E2.chunk-size, by evaluation) and the user-buffer alignment skip is accounted for (E5.align-buffer); every (x+a)&m size rounding uses ~a at the full width (E5.round-up); the 800-digit Decimal of the slow number path keeps every subscript below capacity and its digit count <= 800 at every exit and call (zone abstract interpretation, E3.digit-capacity; upper side only). Round 11: E5.setup-bound; the UTF-8 encoder rejects values above U+10FFFF so that a malformed \\u cannot swallow the sentinel (E5.utf8, shared with C05).",
+ 'C01': "Added later (DESIGN.md 9.3): the first error a sub-parser reports is kept - no store to the error field is reachable once it is known non-zero (E1.first-error; found and fixed 47c8fbb), and every store that can clear the field, and every call that contains one, happens where the field is known zero (interprocedural Must analysis E1.error-sticky), so a fault reported only through the field cannot be wiped by a later number; the control-byte screen, block predicates and mask classes of the string scanner (shared with C05), the SIMD mask width/composition (C15) and the cached white-space bitmap shift range (C11) are re-checked here on K1 and K3. The fault-class naming is thus decided for nested values; which class a truncated text gets is not. Round 11: SetUp's node-stack capacity evaluated for text lengths 0..400 and large ones: >= (len+1)/2, the most live nodes a valid text can have (E5.setup-bound, shared with C02). Round 13: the escape-decoding rules of C05 (escape table, hex decoding by evaluation, surrogate rules, UTF-8 encoder) are run here too.",
+ 'C02': "Added later: every pushed node-stack slot is typed before any exit that lets TearDown see it (E2.slot-init); Parser/SkipScanner objects are fresh locals serving one buffer (E7.fresh-parser); a pool chunk created for a request covers it (E2.chunk-size, by evaluation) and the user-buffer alignment skip is accounted for (E5.align-buffer); every (x+a)&m size rounding uses ~a at the full width (E5.round-up); the 800-digit Decimal of the slow number path keeps every subscript below capacity and its digit count <= 800 at every exit and call (zone abstract interpretation, E3.digit-capacity; upper side only). Round 11: E5.setup-bound; the UTF-8 encoder rejects values above U+10FFFF so that a malformed \\u cannot swallow the sentinel (E5.utf8, shared with C05). Round 13: the control-byte screen of the string scanner (E2.control-screen, shared with C05).",
  'C03': "Added later: every Is* type predicate evaluated for every type tag and integer payloads around 2^63 (E5.kind-predicate); escape tables, surrogate arithmetic and the UTF-8 encoder (shared with C05); white-space table, SIMD mask width and composition for both kernels (shared with C15); scalar events store their value in their own kind (E9.event-kind, shared with C19). Round 10: the recombination of an escaped surrogate pair is evaluated for all single-bit / all-zero / all-one payloads (thorough: all 1024 high surrogates) against 0x10000 + (hi-0xD800)*0x400 + (lo-0xDC00) (E5.surrogate-value, shared with C05). Round 12: the exact fast path of parseFloatingFast multiplies / divides only exact operands (shared with C04). Round 13: the node the SAX handler builds from the canonical event sequence of a text equals the tree of the text, for 216 trees (E6.dom-build: the handler's event methods interpreted on the node / block model) - this covers the node copying and parent-index chaining previously listed as not decided, up to the bound.",
- 'C04': "Added later: a zero mantissa never reaches the normalising converters (E2.nonzero-mantissa), SetDecimal's decimal point accounts for dropped digits (E2.decimal-point), every digit loop adds the digit, sets the truncation flag or runs only on '0' (E2.trunc-set), the ambiguity window of ParseFloatingNormalFast (E5.ambiguity-window), simd_str2int evaluated over the digit basis instead of trusted (E5.simd-digits), the infinity error set by parseNumber reaches the caller unchanged (E1.first-error, shared with C01), the Decimal digit buffer capacity discipline (E3.digit-capacity, shared with C02). Round 11: the early-out bounds of the big-decimal fallback on the decimal-point position (overflow only from 10^309, zero only below 10^-324; E5.decimal-window).",
- 'C05': "Added later: the byte after a high surrogate's escape is tested as an escape introducer at the right offsets (E2.escape-introducer); the unsigned vector relational operators really are unsigned (E9.unsigned-lanes); for on-demand keys the has-escape flag, the hand-over of the escape carry between SkipString's loops and the GetEscaped bit trick (evaluated against the sequential definition for all 10/16-bit backslash masks, E5.escaped-bits) decide where a key literal ends; the error class set by the string scanner is kept (E1.first-error). Runs on K1, K3 and K4 in the quick tier. Round 10: E5.surrogate-value (see C03). Round 11: mask width / composition of the kernels the string skipper uses (shared with C15).",
+ 'C04': "Added later: a zero mantissa never reaches the normalising converters (E2.nonzero-mantissa), SetDecimal's decimal point accounts for dropped digits (E2.decimal-point), every digit loop adds the digit, sets the truncation flag or runs only on '0' (E2.trunc-set), the ambiguity window of ParseFloatingNormalFast (E5.ambiguity-window), simd_str2int evaluated over the digit basis instead of trusted (E5.simd-digits), the infinity error set by parseNumber reaches the caller unchanged (E1.first-error, shared with C01), the Decimal digit buffer capacity discipline (E3.digit-capacity, shared with C02). Round 11: the early-out bounds of the big-decimal fallback on the decimal-point position (overflow only from 10^309, zero only below 10^-324; E5.decimal-window). Round 13: the big-decimal input loop stores every digit, sets the truncation flag, or is taken only for '0' (E2.trunc-set for SetDecimal).",
+ 'C05': "Added later: the byte after a high surrogate's escape is tested as an escape introducer at the right offsets (E2.escape-introducer); the unsigned vector relational operators really are unsigned (E9.unsigned-lanes); for on-demand keys the has-escape flag, the hand-over of the escape carry between SkipString's loops and the GetEscaped bit trick (evaluated against the sequential definition for all 10/16-bit backslash masks, E5.escaped-bits) decide where a key literal ends; the error class set by the string scanner is kept (E1.first-error). Runs on K1, K3 and K4 in the quick tier. Round 10: E5.surrogate-value (see C03). Round 11: mask width / composition of the kernels the string skipper uses (shared with C15). Round 13: hex_to_u32_nocheck is decided by evaluation over ~4300 four-byte words: four hex digits give their value, anything else a value above 0xFFFF (E5.hex-value); the table-shape rule no longer insists on one spelling of the lookup.",
  'C06': "Added later: Stack::Grow is evaluated, no longer trusted (E4.grow-contract); non-finite doubles of both signs are refused, not printed (E5.nonfinite); the string writer's reserve formula, tail page guard and bounce copy (shared with C09) also under K8 (dynamic dispatch on an SSE baseline); each number kind goes to the writer of its own signedness (E9.kind-dispatch); every character of a number text is a digit (E3.kdigits-index for ftoa.h, E3.digit-char); capacity rounding is a true round-up (E5.round-up); escape tables (C09/C05). The separator / bracket / parent-stack logic - previously not decided - is now decided up to a bound: SerializeImpl's CFG is interpreted for every DOM tree shape of nesting depth <= 2 with <= 2 members over {number, string}, depth 3 with restricted arity (thorough: arity 2 everywhere, ~27000 shapes), every leaf kind in every position of arrays of <= 3 and objects of <= 2 members, and the error trees (non-string key, non-finite double); node / write-buffer / stack methods are answered from a model of the library's node layout, the value writers by their contracts; the text left in the buffer must equal the minified JSON text of the tree (E6.serializer). Round 10: the exploration includes two-call histories (a serialization that fails inside an open container, then a valid one) with a static / thread_local parent stack kept across calls; no address inside the write buffer or parent stack is used after a push that may reallocate it (E8.stable-pointer). Round 11: E5.format (the double writer's contract is now decided, see C07).",
  'C07': "Added later: the exponent computation evaluated for all 2046 binary exponents with undefined-behaviour detection; non-finite patterns by evaluation (E5.nonfinite); the interval-endpoint parity rule restated semantically (E9.interval-parity); no lossy 64->32 narrowing in ftoa.h (E3.lossless-narrowing); every digit pair copied from the two-digit table lies inside the 100 pairs and every '0'+x has x in [0,9] under the path guards (E3.kdigits-index, E3.digit-char; contract: decimal exponent in [-343, 308]). Round 11: the formatting stage of F64toa is evaluated with a byte memory for both signs, every digit count, two to four digit patterns and every decimal-point position around the fixed-notation window plus exponent samples (3500 evaluations quick): every store inside the 32-byte buffer, returned length within it, text is a JSON number whose exact value is sig x 10^exp (E5.format, shared with C06).",
- 'C08': "Added later: the U64toa dispatch evaluated at every digit-count boundary (exact group decomposition, E5.split); I64toa evaluated on the int64 boundary values with undefined-behaviour detection (E2.sign; found and fixed 4bed96e); scalar reciprocals (v*M)>>S divide exactly on v's interval (E5.reciprocal); the serializer's number sub-type switch sends each kind to a writer of its own signedness (E9.kind-dispatch). Round 11: K3 (SSE entry points) in the quick tier.",
- 'C09': "Added later: DoEscape reads the source cursor only with a byte remaining (E2.escape-peek); the unsigned vector compares are unsigned (E9.unsigned-lanes); all rules also run on K4 and K8 (dynamic dispatch, AVX2 and SSE baselines) in the quick tier, so a reservation chosen by a compile-time ISA macro is checked against the widest kernel that can run. Round 11: the scalar needs-escape predicate is decided by evaluating GetEscapeMask4 and DoEscape's continue decision for all 256 byte values, independent of how the predicate is represented (E5.escape-predicate).",
+ 'C08': "Added later: the U64toa dispatch evaluated at every digit-count boundary (exact group decomposition, E5.split); I64toa evaluated on the int64 boundary values with undefined-behaviour detection (E2.sign; found and fixed 4bed96e); scalar reciprocals (v*M)>>S divide exactly on v's interval (E5.reciprocal); the serializer's number sub-type switch sends each kind to a writer of its own signedness (E9.kind-dispatch). Round 11: K3 (SSE entry points) in the quick tier. Round 13: no address inside the write buffer is kept across a Grow in the serializer (E8.stable-pointer).",
+ 'C09': "Added later: DoEscape reads the source cursor only with a byte remaining (E2.escape-peek); the unsigned vector compares are unsigned (E9.unsigned-lanes); all rules also run on K4 and K8 (dynamic dispatch, AVX2 and SSE baselines) in the quick tier, so a reservation chosen by a compile-time ISA macro is checked against the widest kernel that can run. Round 11: the scalar needs-escape predicate is decided by evaluating GetEscapeMask4 and DoEscape's continue decision for all 256 byte values, independent of how the predicate is represented (E5.escape-predicate). Round 13: K9 (SSE kernel under AddressSanitizer) in the quick tier.",
  'C10': "Added later: GetArrayElem never counts the closing bracket as an element (E2.array-end; found and fixed f8dcfad); an escaped key is decoded before comparison whenever it could match (E2.key-decode); SkipString's has-escape flag and escape-carry hand-over (E2.escape-flag, E2.escape-carry); GetEscaped evaluated against the sequential definition (E5.escaped-bits); mask width and bitmap shift range. Round 10: the tail of SkipContainer continues from the string / escape state carried by its block loop (E2.container-carry). Round 12: SkipLiteral evaluated with a byte memory mapping exactly [0, len): accepts exactly complete literals inside the text (also when the literal ends it), never reads at or behind len (E5.skip-literal, shared with C20).",
  'C11': "Added later: the cached-bitmap shift is dominated by pos < block_end (E3.shift-range); SIMD masks carry no bits above the lane count (E5.mask-width); runs on K1 and K3 in the quick tier.",
  'C12': "Added later: Clear() releases the lookup map with the children block (E2.map-pairing, Clear arm); the deep-copy rule of C13 (E8.deep-copy) and the comparator rules of C14. Round 11: the mutation API itself is decided against plain ordered containers by bounded exploration (E6.containers, sv/dom_model.py): the *Impl functions are interpreted from their CFGs over every operation sequence of length <= 2 (thorough 3) from five start states, for both allocator instantiations, on a model of children blocks / pointers / the lookup multimap / an allocation ledger; after every operation the container read back equals the reference list / ordered dict and FindMember finds exactly what is there. This replaces 'NOT decided: equality with the vector model' up to the stated bound. Round 12: the exploration also uses the pointer + length FindMember overload with the key as the first bytes of a longer buffer, looks every stored name of >= 2 bytes up through a shorter view that starts at the same address, and includes AddMember of a key that is already present.",
  'C13': "Added later: (g) Free(str_/schema_str_) only after the document's nodes were destroyed on the same path (E8.buffer-lifetime); (h) the map pointer inside a children block is reset only on a fresh block, under a no-previous-block test, or after the map was freed (E8.map-preserved); the deep-copy container arms set the copy's children from containerMalloc or null. Round 10: slots destroyed in place are only overwritten raw, never assigned (E8.dead-slots). Round 11: the same exploration with its allocation ledger decides release-exactly-once for the container mutation API (a double release is undefined behaviour in the model, anything live after the final destroy() is a leak).",
- 'C14': "Added later: every return of the three-way compare family is 0, a forwarded compare in operand order or an unsigned byte difference; a sign taken from a signed vector compare is a violation (E5.unsigned-order); the in-page guard evaluated for every page offset and both address orders; the lookup-map comparator is decided by evaluation on 273 key pairs against unsigned lexicographic order (E2.map-order; previously a name-based presence check); K3 in the quick tier. Round 10: every equality compare of string-view data (any file of the DOM / on-demand layer) is dominated by a size equality (E2.key-length, generalised). Round 11: the compare skeleton reports shifts outside the operand width (undefined; e.g. 1u << 32) and evaluates the in-page and cross-page cases for every length up to 64.",
- 'C15': "Added later: SIMD mask width and composition (E5.mask-width, E5.mask-compose), unsigned lanes (E9.unsigned-lanes), leaf bit primitives evaluated incl. undefined behaviour (E5.bit-primitive), the comparator's unsigned order (C14), and the string skipper's escape hand-over and GetEscaped bit trick for each block width (C10). Round 10: E2.container-carry for both kernels.",
+ 'C14': "Added later: every return of the three-way compare family is 0, a forwarded compare in operand order or an unsigned byte difference; a sign taken from a signed vector compare is a violation (E5.unsigned-order); the in-page guard evaluated for every page offset and both address orders; the lookup-map comparator is decided by evaluation on 273 key pairs against unsigned lexicographic order (E2.map-order; previously a name-based presence check); K3 in the quick tier. Round 10: every equality compare of string-view data (any file of the DOM / on-demand layer) is dominated by a size equality (E2.key-length, generalised). Round 11: the compare skeleton reports shifts outside the operand width (undefined; e.g. 1u << 32) and evaluates the in-page and cross-page cases for every length up to 64. Round 13: no signed arithmetic on a movemask result (E5.mask-arith; found and fixed b486262: INT_MAX + 1 when only the last byte of a block differs).",
+ 'C15': "Added later: SIMD mask width and composition (E5.mask-width, E5.mask-compose), unsigned lanes (E9.unsigned-lanes), leaf bit primitives evaluated incl. undefined behaviour (E5.bit-primitive), the comparator's unsigned order (C14), and the string skipper's escape hand-over and GetEscaped bit trick for each block width (C10). Round 10: E2.container-carry for both kernels. Round 13: byte coverage of the AVX2-only equality kernel (E3.compare-coverage, shared with C14).",
  'C16': "Added later: ChunkSize evaluated on a grid with every break point; align-buffer knows std::align and demands the capacity be derived from the same adjusted size; every (x+a)&m rounding has m == ~a at the full width of x (E5.round-up). Round 10: Clear / Size / Capacity interpreted over chunk chains of 1..4 chunks: the surviving chunk is the first one with size 0, every other chunk freed exactly once and not touched afterwards, the sums are exact (E5.chunk-chain). Round 13: the allocator itself is explored against its specification (E6.pool): Malloc / Realloc / AddChunk / ChunkSize (both policies) / Clear / Size / Capacity interpreted on a chunk model over ~3500 operation sequences; alignment, containment in a live chunk, disjointness since the last Clear, stability, in-place growth exactly when it fits, copy on relocation, null for size 0, exact accounting - replacing the earlier 'NOT decided' for histories up to the stated bound.",
  'C17': "Added later: every compare_exchange attempt of the spin lock starts from expected == false (E7.lock-acquire); any non-rvalue use of a mutable static counts as a write; one buffer per parser object; the dynamic-dispatch front end (K8) is analysed in the quick tier, so process-wide state there (lazily bound kernel pointers) is seen. Round 11: calls on the chunk policy object (which may update itself) are shared pool state and must be inside the lock (E7.lock-scope).",
  'C18': "Added later: shares the map-maintenance pairing of C12 and the comparator rules of C14 (equality looks members up through the same map). Round 10: operator== itself is decided against JSON value equality by exhaustive interpretation of its CFG over ordered pairs of small trees (all leaf kinds and storage flags, containers of <= 2 members in both key orders, nested representatives, three-member objects in every order; ~1300 pairs quick); reads at or behind the end of a member / element block are undefined behaviour in the model (E6.equality). Round 12: shares the container exploration of C12 (FindMember finds exactly the members that are there after any mutation history, linear and through the map).",
